@@ -45,8 +45,11 @@ ContentPreserved == content = Content0
 \* a tree that survives keeps its pending changes; a tree that is created is clean; a refusal changes nothing
 PendingKept == [][(lay.tree /\ lay'.tree) => lay'.dirty = lay.dirty]_vars
 CreatedClean == [][(~lay.tree /\ lay'.tree) => ~lay'.dirty]_vars
-\* (UpgradeShared may have converted the shared repository before one of its branches refuses)
-RefusalIsNoop == [][(last' \in {"already", "refused", "diverges"}) => [lay' EXCEPT !.sfmt = lay.sfmt] = lay]_vars
+\* (UpgradeShared may have converted the shared repository before one of its branches refuses,
+\* and to_checkout without a bind location leaves the working tree it has already created)
+RefusalIsNoop == [][(last' \in {"already", "refused", "diverges"}) =>
+                       \/ [lay' EXCEPT !.sfmt = lay.sfmt] = lay
+                       \/ (~lay.km /\ ~lay.tree /\ lay' = [lay EXCEPT !.tree = TRUE, !.pure = FALSE])]_vars
 \* pending changes are never silently dropped: a dirty tree is only ever kept
 NeverDropsPending == [][lay.dirty => lay'.dirty]_vars
 \* anti-vacuity
